@@ -49,6 +49,7 @@ def main():
                     except Exception: pass
     finally:
         sh(['git', '-C', '/repo', 'checkout', '--', '.'])
+        sh(['git', '-C', ROOT, 'checkout', '--', 'evidence'])     # evidence describes runs on the unchanged tree only
     res['caught'] = any(c['exit'] == 1 and c['violation'] for c in res['checks'].values())
     json.dump(res, open(os.path.join(d, 'result.json'), 'w'), indent=1)
     print(json.dumps({k: res[k] for k in ('seed', 'caught', 'demo_unchanged', 'demo_changed')}, indent=1)[:1500])
